@@ -413,7 +413,10 @@ class REPEX_state:
         """Set numpy random generator state from restart."""
         # streams already handed out: one per completed move plus one per
         # job that was in flight when the restart file was written
-        n_spawned = self.cstep + len(self.config["current"].get("locked", []))
+        n_spawned = self.config["current"].get(
+            "rng_children",
+            self.cstep + len(self.config["current"].get("locked", [])),
+        )
         seed_sequence = np.random.SeedSequence(
             entropy=self.config["simulation"]["seed"],
             n_children_spawned=n_spawned,
@@ -755,6 +758,13 @@ class REPEX_state:
             )
         self.config["current"]["locked"] = locked_ep
         self.config["current"]["rng_state"] = self.rgen.bit_generator.state
+        # streams handed out so far; only stored when it cannot be derived
+        # (jobs re-issued after a restart have used additional streams)
+        n_spawned = self.rgen.bit_generator._seed_seq.n_children_spawned
+        if n_spawned != self.cstep + len(locked_ep):
+            self.config["current"]["rng_children"] = n_spawned
+        else:
+            self.config["current"].pop("rng_children", None)
 
         # save accumulative fracs
         self.config["current"]["frac"] = {}
